@@ -15,6 +15,7 @@ from __future__ import annotations
 
 import builtins
 import importlib
+import os
 import json
 import random
 import time
@@ -137,11 +138,15 @@ def jsonable(obj: Any) -> Any:
 def explore_case(module: str, case: dict[str, Any], sample_paths: int, rnd_seed: int, max_paths: int = 20000, timeout_ms: int = 20000) -> dict[str, Any]:
     mod = importlib.import_module(module)
     ex = S.Explorer(timeout_ms=timeout_ms, max_paths=max_paths)
+    ex.path_limit_s = float(os.environ.get("VERIF_PATH_LIMIT_S", "300"))
     t0 = time.time()
     res: dict[str, Any] = {"key": case["key"], "case": case}
     try:
         paths = ex.explore(lambda e: mod.run(SymEnv(e), case))
         complete = ex.partition_complete(paths)
+    except S.PathTimeout as e:
+        res.update(status="timeout", error=str(e), model=e.model, paths=ex.stats.paths, queries=ex.stats.queries, solver_s=ex.stats.solver_s, wall_s=time.time() - t0)
+        return res
     except S.PathLimit as e:
         res.update(status="pathlimit", error=str(e), paths=ex.stats.paths, queries=ex.stats.queries, solver_s=ex.stats.solver_s, wall_s=time.time() - t0)
         return res
@@ -253,6 +258,14 @@ def run_check(
         if r["status"] == "harness":
             harness.append(f"{r['key']}: {r['error']}")
             continue
+        if r["status"] == "timeout":
+            # one path of the real code did not return while being explored: confirm on the unpatched code under the job limit
+            if r.get("model") is not None:
+                replay_jobs.append({"op": "case", "module": module, "case": r["case"], "model": r["model"]})
+                meta.append(("timeout", r, {"model": r["model"], "path": None, "label": "terminates:returns-within-limit"}))
+            else:
+                harness.append(f"{r['key']}: {r['error']} (no model of the path)")
+            continue
         if r["status"] == "pathlimit":
             tot["pathlimit"] += 1
             continue
@@ -277,6 +290,19 @@ def run_check(
     twin_confirmed: set[str] = set()
     for (kind, r, item), rr in zip(meta, rres):
         case = r["case"]
+        if rr.get("timeout"):
+            # the real code did not return on this model: for the termination property that is the violation itself,
+            # anywhere else the obligations could not be evaluated (harness error, never a pass)
+            if prop == "C12" and not case.get("twin"):
+                v = {"label": "terminates:returns-within-limit", "model": item["model"], "detail": rr["exc"], "path": item.get("path")}
+                findings.append(C.Finding(prop, key_fn(case, v["label"], v, rr), f"{v['label']} | case {case['key']} model={item['model']}: {rr['exc']}",
+                                          {"op": "case", "module": module, "case": case, "model": item["model"], "label": v["label"]}))
+            else:
+                harness.append(f"{r['key']}: the code under replay did not return ({rr['exc']}) model={item['model']}")
+            continue
+        if kind == "timeout":
+            harness.append(f"{r['key']}: {r['error']} during exploration, but the unpatched code returns on the same model {item['model']} (overloaded machine?)")
+            continue
         if kind == "validate":
             want = inst(item["out"], item["model"])
             if rr.get("failed") and not item["nviol"] and not case.get("twin"):
